@@ -28,19 +28,25 @@ pub fn constants(
     for location in constants.keys() {
         let rfl = location.function_location().apply(function).unwrap();
         let rpl = il::RefProgramLocation::new(function, rfl);
-        result.insert(
-            location.clone(),
-            rpl.backward()?
-                .into_iter()
-                .fold(Constants::new(), |c, location| {
-                    // a predecessor the fixed point never visited is unreachable
-                    // from the entry: it contributes nothing
-                    match constants.get(&location.into()) {
-                        Some(predecessor) => c.join(predecessor),
-                        None => c,
-                    }
-                }),
-        );
+        let mut state = rpl
+            .backward()?
+            .into_iter()
+            .fold(None, |c: Option<Constants>, location| {
+                // a predecessor the fixed point never visited is unreachable
+                // from the entry: it contributes nothing
+                match constants.get(&location.into()) {
+                    Some(predecessor) => Some(match c {
+                        Some(c) => c.join(predecessor),
+                        None => predecessor.clone(),
+                    }),
+                    None => c,
+                }
+            })
+            .unwrap_or_else(Constants::new);
+        if is_function_entry(&rpl) {
+            state.top();
+        }
+        result.insert(location.clone(), state);
     }
 
     Ok(result)
@@ -188,6 +194,9 @@ impl Constants {
         eval(&expression).ok()
     }
 
+    /// The join of two states. A scalar known in one state only has an
+    /// unknown value (whatever it held when the function was entered) in the
+    /// other, so it is `Top` in the join.
     fn join(self, other: &Constants) -> Constants {
         let mut result = self.clone();
         for (scalar, constant) in other.constants.iter() {
@@ -197,10 +206,26 @@ impl Constants {
                         result.set_scalar(scalar.clone(), Constant::Top);
                     }
                 }
-                None => result.set_scalar(scalar.clone(), constant.clone()),
+                None => result.set_scalar(scalar.clone(), Constant::Top),
+            }
+        }
+        for scalar in self.constants.keys() {
+            if !other.constants.contains_key(scalar) {
+                result.set_scalar(scalar.clone(), Constant::Top);
             }
         }
         result
+    }
+}
+
+/// Is this the location at which execution of the function begins?
+fn is_function_entry(location: &il::RefProgramLocation) -> bool {
+    match il::RefProgramLocation::from_function(location.function()) {
+        Some(Ok(entry)) => {
+            il::FunctionLocation::from(entry.function_location().clone())
+                == il::FunctionLocation::from(location.function_location().clone())
+        }
+        _ => false,
     }
 }
 
@@ -217,6 +242,12 @@ impl<'r> fixed_point::FixedPointAnalysis<'r, Constants> for ConstantsAnalysis {
             Some(state) => state,
             None => Constants::new(),
         };
+
+        // The function is entered with unknown values: when the entry is
+        // reached again over a back edge, nothing is known there.
+        if is_function_entry(&location) {
+            state.top();
+        }
 
         let state = match location.instruction() {
             Some(instruction) => match *instruction.operation() {
